@@ -263,6 +263,8 @@ void h_compile_classify (void)
  *   6 run through a code-only executor on the most recently taken code object
  *   7 emulate (orc_executor_emulate, n = 3)     8 free the most recently taken code object
  *   9 put the program into the parse-error state (orc_program_set_error) - a later compile returns a PARSE result
+ *   10 append an instruction whose operand sizes do not match: later compiles fail in the early size check (after any
+ *      previously attached code object has been released)
  * Afterwards the program and every code object still held are freed, the registry is torn down, and CBMC's
  * memory-leak and pointer checks decide: no double free, no use after free, nothing left allocated. */
 #ifndef OPS
@@ -309,6 +311,7 @@ void h_lifecycle (void)
         break; }
       case 8: if (nheld) orc_code_free (held[--nheld]); break;
       case 9: orc_program_set_error (p, "syntax error"); break;
+      case 10: orc_program_append (p, "addw", ORC_VAR_D1, ORC_VAR_S1, ORC_VAR_S2); break;   /* 2-byte opcode on 1-byte arrays: every later compile fails in orc_compiler_check_sizes */
     }
   }
   int live_expected = nheld + (p->orccode && p->orccode->chunk ? 1 : 0);
